@@ -58,6 +58,7 @@ fn main() {
                 "dis" => text::gen_dis(&mut w, thorough, seed),
                 "rt" => text::gen_rt(&mut w, thorough, seed),
                 "helper" => helpers::gen(&mut w, thorough, seed),
+                "exec-accepted" => exec::gen_accepted(&mut w, thorough, seed),
                 "exec-long" => exec::gen_long(&mut w, thorough, seed),
                 _ => { eprintln!("unknown suite {suite}"); std::process::exit(2); }
             }
